@@ -37,6 +37,23 @@ PROPS["C23"] = {
     "level_note": "Trusted: Kani/CBMC/cadical, the 20-line bit-string reference model; single-threaded semantics of the atomics.",
 }
 
+PROPS["C33"] = {
+    "enc": ["align_allocation", "align_allocation_no_fill", "align_allocation_inner", "fill_alignment_gap", "get_maximum_aligned_size",
+            "get_maximum_aligned_size_inner", "raw_align_up", "raw_align_down", "raw_is_aligned", "rshift_align_up", "bytes_to_pages_up",
+            "pages_to_bytes", "bytes_to_chunks_up", "chunk_align_up", "chunk_align_down", "page_align_down", "is_page_aligned",
+            "address_to_chunk_index", "chunk_index_to_address", "Address::{align_up,align_down,is_aligned_to}"],
+    "sym": "full 64-bit region/val/num/bytes; alignment = 1<<k with k symbolic in [log MIN_ALIGNMENT, log MAX_ALIGNMENT] (0..=63 for the raw helpers); "
+           "known_alignment = 1<<k in [MIN, 4096]; offset any multiple of the known alignment below 2^63; shift bits 0..=63; "
+           "fill variant: region at any 4-byte step of a real 192-byte buffer",
+    "bound": "Loop-free code at full width: no bound on values. Instantiations VmA (MIN 8/MAX 8), VmB (MIN 4/MAX 64, fill 0xab), VmC (MIN 8/MAX 4096). "
+             "Gap filling is checked on a 192-byte buffer (gaps up to 63 bytes = every gap VmB can produce).",
+    "outside": "inputs whose result would overflow usize (the property excludes them); offset >= 2^63 (its negation as isize overflows in the dev profile); other VM alignment constants",
+    "assumptions": COMMON_ASSUME + ["alignment is a power of two within the VM's [MIN_ALIGNMENT, MAX_ALIGNMENT]", "region and offset are multiples of the known alignment (the function's debug assertions / meaning of known_alignment)",
+                                    "region <= usize::MAX - MAX_ALIGNMENT, val + align - 1 does not overflow, offset < 2^63"],
+    "level_text": "Bounded symbolic execution (Kani/CBMC) of the alignment and rounding functions at full 64-bit width with symbolic power-of-two alignments: results compared with the arithmetic specification (multiple-of, least/greatest, gap < alignment, gap + size <= get_maximum_aligned_size), gap filling compared byte by byte on a real buffer. Loop-free code, so within the stated preconditions the verdict covers every input for the three VM instantiations.",
+    "level_note": "Trusted: Kani/CBMC/cadical and the mask-form arithmetic oracles; VM constants limited to the three instantiations.",
+}
+
 NOT_APPLICABLE = {}
 _L = ("observable only on a live collector (MMTK instance, mmap'd heap, OS worker threads, VM call-backs); Kani has no thread/FFI model and a "
       "whole collection is outside any unwinding bound; the bit-level kernels are decided under ")
@@ -61,5 +78,5 @@ NOT_APPLICABLE.update({
     "C39": "DESIGN P11: 3 symbolic bytes through to_lowercase/parse/format! exceed 420 s; GCTriggerSelector::from_str compiles two regex::Regex",
 })
 # Claimed in DESIGN.md but not built yet: listed as not applicable until their check exists.
-for _p in ["C08", "C10", "C17", "C18", "C20", "C21", "C22", "C24", "C25", "C26", "C27", "C28", "C29", "C31", "C32", "C33", "C34", "C35", "C37", "C38", "C40"]:
+for _p in ["C08", "C10", "C17", "C18", "C20", "C21", "C22", "C24", "C25", "C26", "C27", "C28", "C29", "C31", "C32", "C34", "C35", "C37", "C38", "C40"]:
     NOT_APPLICABLE.setdefault(_p, "check planned in DESIGN.md section 3 but not built yet; not claimed until its harnesses are registered")
